@@ -171,7 +171,8 @@ class SvsWorld(World):
         st = inst.state
         if self.prev_state == self.SvsState.SyncSuppression and st == self.SvsState.SyncSteady:
             self.log('sup-end', by='publish' if self.new_data_this_step else 'timer', local=cur,
-                     tx=[x for x in self.tx_this_step], agg=dict(getattr(inst, 'agg_sv', {})))
+                     tx=[x for x in self.tx_this_step], agg=dict(getattr(inst, 'agg_sv', {})),
+                     lasted=None if self.sup_since is None else self.now_us() - self.sup_since)
         if st == self.SvsState.SyncSuppression and inst.running:
             if self.sup_since is None:
                 self.sup_since = self.now_us()
@@ -473,7 +474,10 @@ def generate(rng, seed, tier='quick'):
     for _ in range(n_events):
         x = rng.random()
         # aim at the suppression window opened by an earlier vector
-        if last_trigger is not None and rng.random() < 0.6:
+        if sync_int <= 1.0 and rng.random() < 0.25:
+            # shortly before / around the expiry of the periodic timer (armed at start and after each emission)
+            t = max(t, 1000 + int(sync_int * 1e6 * rng.choice([0.85, 0.9, 0.95, 1.0, 1.05, 1.09])) - rng.choice([0, 20000, 60000, 90000]))
+        elif last_trigger is not None and rng.random() < 0.6:
             t_new = last_trigger + rng.choice([1, 1000, sup_us // 4, sup_us // 2 - 1000, sup_us // 2 + rng.randint(0, sup_us)])
             t = max(t, t_new) if rng.random() < 0.8 else t + rng.choice([1, 1000])
         else:
